@@ -73,7 +73,6 @@ def showWant : Want → String
   | .keep => "keep"
   | .glyph g p => "glyph " ++ showGlyph g ++ showPen p
   | .line m p => s!"line x{m}" ++ showPen p
-  | .half p => "half" ++ showPen p
   | .unspecified => "unspecified"
 
 /-- Is `bs` the UTF-8 form of one code point acceptable for `mask`? -/
@@ -95,10 +94,6 @@ def checkCell (w : Want) (old new : TCell) : String :=
   | .line m p =>
     if !(match new.glyph with | .chars bs => lineGlyphOK m bs | _ => false) then "glyph lacks arms of the mask or has others"
     else if !penSame new.pen p then "wrong pen"
-    else if new.writes != old.writes + 1 then s!"written {new.writes - old.writes} times"
-    else ""
-  | .half p =>
-    if !penSame new.pen p then "wrong pen"
     else if new.writes != old.writes + 1 then s!"written {new.writes - old.writes} times"
     else ""
 
